@@ -92,6 +92,12 @@ def catalogue(tier="quick", backends=("hand", "tt", "jax")):
         orx = dict(r=3.0, m=1.0, beta=0.1)
         add("OgdenRoxburgh(NeoHooke)", lambda: fem.OgdenRoxburgh(fem.NeoHooke(mu=1.0, bulk=2.0), **orx), "hand", nstate=1, hyper=False,
             states=[("virgin", lambda n: _sv(1, n, 0.0)), ("softened", lambda n: _sv(1, n, 3.0)), ("mixed-maxima", lambda n: _sv_alt(n, 0.02, 3.0))], scale=2.0)
+        # pseudo-elasticity around the other hand-coded bases that expose an energy (the wrapper is the only consumer of it)
+        add("OgdenRoxburgh(NeoHookeCompressible)", lambda: fem.OgdenRoxburgh(fem.NeoHookeCompressible(mu=1.0, lmbda=2.0), **orx), "hand", nstate=1, hyper=False,
+            states=[("virgin", lambda n: _sv(1, n, 0.0)), ("softened", lambda n: _sv(1, n, 3.0)), ("mixed-maxima", lambda n: _sv_alt(n, 0.02, 3.0))], scale=2.0)
+        if hasattr(fem.LinearElasticLargeStrain(E=2.0, nu=0.3), "function"):
+            add("OgdenRoxburgh(LinearElasticLargeStrain)", lambda: fem.OgdenRoxburgh(fem.LinearElasticLargeStrain(E=2.0, nu=0.3), **orx), "hand", nstate=1, hyper=False,
+                states=[("virgin", lambda n: _sv(1, n, 0.0)), ("softened", lambda n: _sv(1, n, 3.0))], scale=2.0)
         # the same bodies in another stress unit (a kPa gel in a GPa unit system and the reverse): all moduli x s, energies x s
         for s_ in (1e-9, 1e7):
             add(f"NeoHooke(mu,bulk)*{s_:g}", lambda s_=s_: fem.NeoHooke(mu=1.3 * s_, bulk=4.1 * s_), "hand", energy=en(fem.NeoHooke(mu=1.3 * s_, bulk=4.1 * s_)), scale=4.1 * s_)
